@@ -1,1 +1,220 @@
 //! verif-hooks: lex area (read-only accessors; see mod.rs)
+//!
+//! `trace` drains the real `Lexer` iterator the way every caller does (stop
+//! at the first error) and records, with every token, the byte length of the
+//! input that remains after it.  `oracle` answers the three questions the
+//! lexer model treats as oracles, for one input: which of its non-ASCII
+//! characters are alphabetic, what `parse_number` returns on every suffix
+//! that starts like a number, and what `Date::parse` returns on every
+//! candidate date string.  `whitespace_table` lists every whitespace scalar.
+
+use super::lang::Dump;
+use crate::error::FendError;
+use crate::lexer::{self, Symbol, Token};
+
+fn s(t: &str) -> Dump {
+	Dump::S(t.as_bytes().to_vec())
+}
+
+fn l(v: Vec<Dump>) -> Dump {
+	Dump::L(v)
+}
+
+fn a(n: usize) -> Dump {
+	Dump::A(i64::try_from(n).unwrap_or(i64::MAX))
+}
+
+fn symbol_code(sym: Symbol) -> i64 {
+	match sym {
+		Symbol::OpenParens => 0,
+		Symbol::CloseParens => 1,
+		Symbol::Add => 2,
+		Symbol::Sub => 3,
+		Symbol::Mul => 4,
+		Symbol::Div => 5,
+		Symbol::Mod => 6,
+		Symbol::Pow => 7,
+		Symbol::BitwiseAnd => 8,
+		Symbol::BitwiseOr => 9,
+		Symbol::BitwiseXor => 10,
+		Symbol::UnitConversion => 11,
+		Symbol::Factorial => 12,
+		Symbol::Fn => 13,
+		Symbol::Backslash => 14,
+		Symbol::Dot => 15,
+		Symbol::Of => 16,
+		Symbol::ShiftLeft => 17,
+		Symbol::ShiftRight => 18,
+		Symbol::Semicolon => 19,
+		Symbol::Equals => 20,
+		Symbol::DoubleEquals => 21,
+		Symbol::NotEquals => 22,
+		Symbol::Combination => 23,
+		Symbol::Permutation => 24,
+	}
+}
+
+fn dump_token(t: &Token) -> Dump {
+	match t {
+		Token::Num(n) => l(vec![s("n"), s(&format!("{n:?}"))]),
+		Token::Ident(i) => l(vec![s("i"), s(i.as_str())]),
+		Token::Symbol(sym) => l(vec![s("y"), Dump::A(symbol_code(*sym))]),
+		Token::StringLiteral(x) => l(vec![s("s"), s(x)]),
+		Token::Date(d) => l(vec![s("d"), s(&format!("{d:?}"))]),
+	}
+}
+
+/// `("err" "<Debug>" "<variant>" [char])`: the variants the lexer itself
+/// raises are named; everything else (number parser, date parser) is "other".
+fn dump_error(e: &FendError) -> Dump {
+	let dbg = s(&format!("{e:?}"));
+	let ch = |c: &char| Dump::A(i64::from(u32::from(*c)));
+	match e {
+		FendError::ExpectedACharacter => l(vec![s("err"), dbg, s("ExpectedACharacter")]),
+		FendError::InvalidCharAtBeginningOfIdent(c) => {
+			l(vec![s("err"), dbg, s("InvalidCharAtBeginningOfIdent"), ch(c)])
+		}
+		FendError::UnexpectedChar(c) => l(vec![s("err"), dbg, s("UnexpectedChar"), ch(c)]),
+		FendError::UnterminatedStringLiteral => {
+			l(vec![s("err"), dbg, s("UnterminatedStringLiteral")])
+		}
+		FendError::UnknownBackslashEscapeSequence(c) => {
+			l(vec![s("err"), dbg, s("UnknownBackslashEscapeSequence"), ch(c)])
+		}
+		FendError::BackslashXOutOfRange => l(vec![s("err"), dbg, s("BackslashXOutOfRange")]),
+		FendError::ExpectedALetterOrCode => l(vec![s("err"), dbg, s("ExpectedALetterOrCode")]),
+		FendError::InvalidUnicodeEscapeSequence => {
+			l(vec![s("err"), dbg, s("InvalidUnicodeEscapeSequence")])
+		}
+		FendError::ExpectedADateLiteral => l(vec![s("err"), dbg, s("ExpectedADateLiteral")]),
+		_ => l(vec![s("err"), dbg, s("other")]),
+	}
+}
+
+fn style(comma: bool) -> crate::DecimalSeparatorStyle {
+	if comma {
+		crate::DecimalSeparatorStyle::Comma
+	} else {
+		crate::DecimalSeparatorStyle::Dot
+	}
+}
+
+/// `(status ((token remaining-bytes boundary?) ...))` with status `("ok")`
+/// or `("err" ...)`.  `boundary?` is 1 when the remaining input starts at a
+/// char boundary of `text` and is a suffix of it (always, for a `&str`).
+#[must_use]
+pub fn trace(text: &str, comma: bool) -> Dump {
+	let mut ctx = crate::Context::new();
+	ctx.set_decimal_separator_style(style(comma));
+	let int = crate::interrupt::Never;
+	let mut lexer = lexer::lex(text, &ctx, &int);
+	let mut items = vec![];
+	let mut status = l(vec![s("ok")]);
+	let mut prev_len = text.len() + 1;
+	loop {
+		match lexer.next() {
+			None => break,
+			Some(Err(e)) => {
+				status = dump_error(&e);
+				break;
+			}
+			Some(Ok(t)) => {
+				let rem = lexer.verif_remaining();
+				let ok = rem.len() <= text.len()
+					&& text.is_char_boundary(text.len() - rem.len())
+					&& text.ends_with(rem);
+				items.push(l(vec![dump_token(&t), a(rem.len()), Dump::A(i64::from(ok))]));
+				if rem.len() >= prev_len {
+					// a token that consumed nothing: stop instead of looping for ever
+					status = l(vec![s("no-progress")]);
+					break;
+				}
+				prev_len = rem.len();
+			}
+		}
+	}
+	l(vec![status, l(items)])
+}
+
+/// `((alphabetic non-ASCII code points of text) (number table) (date table))`;
+/// number table entries `(chars-remaining "ok" "<Debug of Number>" chars-consumed)`
+/// or `(chars-remaining "err" "<Debug of FendError>" 0)`, one per suffix whose
+/// first character is an ASCII digit, `.`, `,` or `d`; date table entries
+/// `("<digits and dashes>" "ok"|"err" "<Debug>")` for every prefix of the run
+/// of digits and dashes after each `@`.
+#[must_use]
+pub fn oracle(text: &str, comma: bool) -> Dump {
+	let int = crate::interrupt::Never;
+	let mut alpha = vec![];
+	for c in text.chars() {
+		if !c.is_ascii() && c.is_alphabetic() {
+			let d = Dump::A(i64::from(u32::from(c)));
+			if !alpha.contains(&d) {
+				alpha.push(d);
+			}
+		}
+	}
+	let total_chars = text.chars().count();
+	let mut nums = vec![];
+	let mut dates: Vec<Dump> = vec![];
+	for (k, (idx, c)) in text.char_indices().enumerate() {
+		let suffix = &text[idx..];
+		let rem_chars = total_chars - k;
+		if c.is_ascii_digit() || c == '.' || c == ',' || c == 'd' {
+			match lexer::verif_parse_number(suffix, style(comma), &int) {
+				Ok((n, rest)) => {
+					let consumed = suffix.chars().count() - rest.chars().count();
+					let sane = suffix.ends_with(rest) && suffix.is_char_boundary(suffix.len() - rest.len());
+					nums.push(l(vec![
+						a(rem_chars),
+						s(if sane { "ok" } else { "not-a-suffix" }),
+						s(&format!("{n:?}")),
+						a(consumed),
+					]));
+				}
+				Err(e) => nums.push(l(vec![a(rem_chars), s("err"), s(&format!("{e:?}")), a(0)])),
+			}
+		}
+		if c == '@' {
+			let run: String = suffix[1..]
+				.chars()
+				.take_while(|x| x.is_ascii_digit() || *x == '-')
+				.collect();
+			for end in 1..=run.len() {
+				let cand = &run[..end];
+				let key = s(cand);
+				if dates.iter().any(|d| matches!(d, Dump::L(v) if v.first() == Some(&key))) {
+					continue;
+				}
+				match crate::date::Date::parse(cand) {
+					Ok(d) => dates.push(l(vec![key, s("ok"), s(&format!("{d:?}"))])),
+					Err(e) => dates.push(l(vec![key, s("err"), s(&format!("{e:?}"))])),
+				}
+			}
+		}
+	}
+	l(vec![l(alpha), l(nums), l(dates)])
+}
+
+/// Every scalar value for which `char::is_whitespace` holds, and every
+/// ASCII value for which `char::is_alphabetic` / `is_ascii_whitespace` hold.
+#[must_use]
+pub fn class_tables() -> Dump {
+	let mut ws = vec![];
+	let mut alpha = vec![];
+	let mut aws = vec![];
+	for u in 0..=0x10_ffff_u32 {
+		if let Some(c) = char::from_u32(u) {
+			if c.is_whitespace() {
+				ws.push(Dump::A(i64::from(u)));
+			}
+			if u < 128 && c.is_alphabetic() {
+				alpha.push(Dump::A(i64::from(u)));
+			}
+			if c.is_ascii_whitespace() {
+				aws.push(Dump::A(i64::from(u)));
+			}
+		}
+	}
+	l(vec![l(ws), l(alpha), l(aws)])
+}
